@@ -215,7 +215,13 @@ func (v *vm) hex(i int) []byte {
 	if !ok {
 		panic(bad("hex"))
 	}
-	return x
+	// the bytes sit in a roomier array (a reused receive buffer): what lies beyond len() is stale data that would terminate or
+	// continue a variable-length integer, and is not part of the input
+	stale := [...]byte{0x01, 0x80, 0x7f, 0x00, 0x81, 0x05, 0xff, 0x02, 0x01, 0x01, 0x80, 0x01}
+	y := make([]byte, len(x), len(x)+len(stale))
+	copy(y, x)
+	copy(y[len(x):cap(y)], stale[len(x)%3:])
+	return y
 }
 
 func (v *vm) is(i int, s string) bool { return string(v.t[i]) == s }
